@@ -39,7 +39,8 @@ def scalar_value(pos, p):
 def check_scalar_payload(p, fmt, ver='3.0'):
     """all scalar-level positions for one payload"""
     import hszinc
-    mode = hszinc.MODE_ZINC if fmt == 'zinc' else hszinc.MODE_JSON
+    from .. import rt
+    mode = rt._mode(fmt, len(p))
     for pos in SCALAR_POS:
         if pos.startswith('xstr') and ver != '3.0':
             continue
@@ -82,7 +83,8 @@ def probe(payloads, ver):
 
 def check_probe(payloads, fmt, ver):
     import hszinc
-    mode = hszinc.MODE_ZINC if fmt == 'zinc' else hszinc.MODE_JSON
+    from .. import rt
+    mode = rt._mode(fmt, sum(len(x) for x in payloads))
     case = {'kind': 'probe', 'payloads': payloads, 'fmt': fmt, 'ver': ver}
     ms = probe(payloads, ver)
     gs = [model.from_model(m) for m in ms]
